@@ -67,6 +67,11 @@ MUTANTS = [
     ("cik-nooffset", CO, "                    pointer = self._group_key_pointers[first_chunk_in + i]\n", "                    pointer = self._group_key_pointers[i]\n", None, "GroupBy.count_ikey[chunked key,pointers=tables", "a slice mask that starts in a later chunk pairs the key chunks with the pointer tables of the leading chunks"),
     ("cik-assign", CO, "                    count[pointer] += c\n", "                    count[pointer] = c\n", None, "GroupBy.count_ikey[chunked key,pointers=tables", "counts of later chunks overwrite those of earlier ones"),
     ("cik-bound", CO, "                    c = numba_funcs.group_size(chunk, len(pointer), mask=m)\n", "                    c = numba_funcs.group_size(chunk, self.ngroups, mask=m)\n", None, "GroupBy.count_ikey[chunked key,pointers=tables", "local counts sized by the global number of groups (shape mismatch with the pointer table)"),
+    ("cm-nooffset", CO, "                    pointer = self._group_key_pointers[first_chunk_in + j]\n", "                    pointer = self._group_key_pointers[j]\n", None, "_apply_gb_func_across_chunked_group_keys::loop", "partials of a sliced chunked key merged through the pointer tables of the leading chunks"),
+    ("cm-nocounts", CO, "                    counts=count[pointer],\n", "", None, "_apply_gb_func_across_chunked_group_keys::loop", "merge without the accumulated count: the untouched start value is merged as data"),
+    ("cm-noycounts", CO, "                    y_counts=counts_one_value[j][:-1],\n", "", None, "_apply_gb_func_across_chunked_group_keys::loop", "empty partials of a chunk are merged as data"),
+    ("cm-nullslot", CO, "                result = result[:-1]  # ignore null group\n", "", None, "_apply_gb_func_across_chunked_group_keys::loop", "the chunk's null-key slot takes part in the merge"),
+    ("cm-countassign", CO, "                count[pointer] += counts_one_value[j][:-1]  # ignore null group\n", "                count[pointer] += counts_one_value[0][:-1]  # ignore null group\n", None, "_apply_gb_func_across_chunked_group_keys::loop", "the counts of the first chunk are accumulated for every chunk"),
     ("isnull-int", U, "            return x == MIN_INT\n", "            return x <= MIN_INT + 1\n", None, "jit_is_null.is_null#1", "a second integer value is read as null"),
     ("isnull-neg", U, "        out[i] = is_null(arr[i])", "        out[i] = not is_null(arr[i])", None, "arr_is_null", "inverted"),
 ]
